@@ -14,12 +14,13 @@ specifications are `specAccept`, `specOverlapSym`, `specBox` in `Spec/Config.lea
 2. **Rejection.** One `accepts_*_iff` per validated attribute: acceptance by the model's setter ⇔ a
    first-order description of the admissible values, for **all** Python values of the universe
    `PyVal`; `rejected_at_finalize_only` (which attributes are checked late);
-   `model_meets_specAccept` (the model's outcome satisfies the documented rule, outside K2 seen
-   through a null point); `null_point_outside_space_rejected` (former finding K19a, repaired);
+   `model_meets_specAccept` (the model's outcome satisfies the documented rule on every modelled
+   input); `null_point_outside_space_rejected` (former finding K19a, repaired);
    readings `specAccept_reading`, `doc_*`.
-3. **Box.** `box_contains_iff` characterises the model's `Box.contains` on all of `PyVal` outside
-   the K2 exception; `box_k2_truncates` states the exception; `box_k2_witness` is the decided
-   witness `[1.9] in Box(0, 1, (1,), int)`; `model_meets_specBox`; readings.
+3. **Box.** `box_contains_iff` characterises the model's `Box.contains` on all of `PyVal`, without
+   exception; `box_int_rejects_fractional` (former finding K2, repaired in 9e72b84) and a decided
+   example that the former witnesses (`[1.9] in Box(0, 1, (1,), int)` …) are rejected;
+   `model_meets_specBox`; readings.
 -/
 namespace Abmarl
 namespace Cfg
@@ -275,12 +276,11 @@ theorem outcome_eq_assign (a : Attr) (c : Ctx) (v : PyVal) (h1 : a ≠ .nullPoin
     | exact absurd rfl h2
 
 /-- **C19, rejection clause, for the model**: for every attribute, context and Python value the
-model's outcome satisfies `specAccept` — outside the open finding K2 seen through a null point
-(`knownExc`), and on modelled inputs. -/
-theorem model_meets_specAccept (a : Attr) (c : Ctx) (v : PyVal)
-    (hk : knownExc a c v = false) (hm : outcome a c v ≠ .unmodelled) :
+model's outcome satisfies `specAccept`, on every modelled input (both findings that used to be
+excepted, K19a and K2, are repaired). -/
+theorem model_meets_specAccept (a : Attr) (c : Ctx) (v : PyVal) (hm : outcome a c v ≠ .unmodelled) :
     specAccept a c v (outcome a c v) = true :=
-  model_meets_specAccept_aux a c v hk hm
+  model_meets_specAccept_aux a c v hm
 
 /-- **the former finding K19a cannot recur in the model**: any null point that was given and is not
 a member of the space — falsy or not — is rejected at finalize (or the input is unmodelled) -/
@@ -404,56 +404,59 @@ theorem doc_mapping_absent_target (c : Ctx) (k : PyVal) (i : Int) (rest : List (
 
 /-! ## 3. `abmarl.tools.Box.contains` -/
 
-/-- **`Box.contains` characterised on all Python values**, outside the K2 exception:
+/-- **`Box.contains` characterised on all Python values, without exception**:
 membership is exactly the declarative `DocMember` (scalars as one-element vectors, arrays of safely
-castable dtype, rectangular nestings of numbers — all of the box's shape and within its bounds). -/
-theorem box_contains_iff (b : BoxSp) (v : PyVal) (h : k2Exc b v = false) :
-    boxContains b v = .yes ↔ DocMember b v :=
-  boxContains_yes_iff b v h
+castable dtype, rectangular nestings of numbers — all of the box's shape and within its bounds;
+for an integer box every float leaf must be whole). -/
+theorem box_contains_iff (b : BoxSp) (v : PyVal) : boxContains b v = .yes ↔ DocMember b v :=
+  boxContains_yes_iff b v
 
-/-- **the K2 exception, stated**: a one-element list holding a float, offered to an integer box of
-shape `(1,)`, is a member iff its *truncation* is within the bounds -/
-theorem box_k2_truncates (b : BoxSp) (q : Rat) (hI : b.isInt = true) (hs : b.shape = [1]) :
-    boxContains b (.list [.float (.fin q)]) = .yes ↔
-      (inI64 (truncQ q) = true ∧ b.low ≤ (truncQ q : Rat) ∧ (truncQ q : Rat) ≤ b.high) := by
-  have h1 : boxContains b (.list [.float (.fin q)]) =
-      (match asArr b.isInt (.list [.float (.fin q)]) with
-       | .ok sh vals => boxTest b (boxDT b) sh vals
-       | .raises => .raises
-       | .unmodelled => .unmodelled) := rfl
-  rw [h1, hI]
-  by_cases hi : inI64 (truncQ q) = true
-  · have h2 : asArr true (.list [.float (.fin q)]) = .ok [1] [.fin (truncQ q)] := by
-      simp [asArr, asArrs, leafConv, hi, combine, AsArr.isOkShape, AsArr.valsOf]
-    rw [h2]
-    simp only
-    rw [boxTest_yes_iff]
-    simp [canCast, boxDT, hI, hs, inBounds, hi]
-  · have h2 : asArr true (.list [.float (.fin q)]) = .raises := by
-      simp [asArr, asArrs, leafConv, hi, combine]
-    rw [h2]
-    simp [hi]
+/-- **former finding K2 cannot recur in the model** (repaired in 9e72b84): an integer box accepts
+nothing that holds a finite non-integral float, however it is wrapped (list, tuple, nesting, numpy
+scalar, Python scalar) — there is no acceptance "after truncation" -/
+theorem box_int_rejects_fractional (b : BoxSp) (v : PyVal) (hI : b.isInt = true)
+    (h : ∃ l ∈ leaves v, fracFloatLeaf l = true) : boxContains b v ≠ .yes := by
+  intro hy
+  obtain ⟨l, hl, hfr⟩ := h
+  rcases (box_contains_iff b v).mp hy with ⟨i, rfl, _⟩ | ⟨f, rfl, hf, _⟩ | ⟨dt, sh, xs, rfl, _⟩ | ⟨_, _, hall⟩
+  · simp only [leaves, List.mem_singleton] at hl
+    subst hl; simp [fracFloatLeaf] at hfr
+  · rw [hI] at hf; cases hf
+  · simp only [leaves, List.mem_singleton] at hl
+    subst hl; simp [fracFloatLeaf] at hfr
+  · obtain ⟨x, hx, _⟩ := hall l hl
+    rw [hI, frac_no_den l hfr] at hx
+    cases hx
 
 /-- the double nearest to 1.9, exactly -/
 def q19 : Rat := ⟨4278419646001971, 2251799813685248, by decide, by decide⟩
+/-- −0.5 -/
+def qmh : Rat := ⟨-1, 2, by decide, by decide⟩
 
-/-- **K2, decided witness**: `[1.9] in Box(0, 1, (1,), int)` is `True` in the model (as in the real
-code), although 1.9 is neither an integer nor within `[0, 1]`: the documented rule is violated. -/
-theorem box_k2_witness :
-    k2Exc ⟨true, [1], 0, 1⟩ (.list [.float (.fin q19)]) = true ∧
-    boxContains ⟨true, [1], 0, 1⟩ (.list [.float (.fin q19)]) = .yes ∧
+/-- **the former K2 witnesses are rejected now**: `[1.9]`, `[-0.5]`, `(1.9,)`, `[[1.9]]`-style
+nestings and `np.float64(1.9)` are no members of `Box(0, 1, …, int)` (the judge agrees: certain
+non-members, `specBox` holds for the model's answer); `[1.0]`, `[True]`, `[1]`, `np.float64(1.0)`
+still are members; the float box is unchanged (`[0.5]` stays a member). -/
+example :
+    boxContains ⟨true, [1], 0, 1⟩ (.list [.float (.fin q19)]) = .no ∧
+    boxContains ⟨true, [1], 0, 1⟩ (.list [.float (.fin qmh)]) = .no ∧
+    boxContains ⟨true, [1], 0, 1⟩ (.tuple [.float (.fin q19)]) = .no ∧
+    boxContains ⟨true, [1], 0, 1⟩ (.list [.npFloat (.fin q19)]) = .no ∧
+    boxContains ⟨true, [1, 1], 0, 1⟩ (.list [.list [.float (.fin q19)]]) = .no ∧
+    boxContains ⟨true, [], 0, 1⟩ (.npFloat (.fin q19)) = .no ∧
     mustRejectBox ⟨true, [1], 0, 1⟩ (.list [.float (.fin q19)]) = true ∧
-    specBox ⟨true, [1], 0, 1⟩ (.list [.float (.fin q19)]) .yes = false := by
+    specBox ⟨true, [1], 0, 1⟩ (.list [.float (.fin q19)]) (boxContains ⟨true, [1], 0, 1⟩ (.list [.float (.fin q19)])) = true ∧
+    specBox ⟨true, [1], 0, 1⟩ (.list [.float (.fin q19)]) .yes = false ∧
+    boxContains ⟨true, [1], 0, 1⟩ (.list [.float (.fin 1)]) = .yes ∧
+    boxContains ⟨true, [1], 0, 1⟩ (.list [.bool true]) = .yes ∧
+    boxContains ⟨true, [1], 0, 1⟩ (.list [.int 1]) = .yes ∧
+    boxContains ⟨true, [], 0, 1⟩ (.npFloat (.fin 1)) = .yes ∧
+    boxContains ⟨false, [1], 0, 1⟩ (.list [.float (.fin ⟨1, 2, by decide, by decide⟩)]) = .yes := by
   decide
 
-/-- the same input is no member by the declarative rule -/
-theorem box_k2_witness_not_member : ¬ DocMember ⟨true, [1], 0, 1⟩ (.list [.float (.fin q19)]) :=
-  mustReject_not_docMember _ _ box_k2_witness.2.2.1
-
-/-- **the model's `Box.contains` satisfies the Box clause of C19 outside K2** -/
-theorem model_meets_specBox (b : BoxSp) (v : PyVal) (h : k2Exc b v = false) :
-    specBox b v (boxContains b v) = true :=
-  model_meets_specBox_aux b v h
+/-- **the model's `Box.contains` satisfies the Box clause of C19**, for every box and every value -/
+theorem model_meets_specBox (b : BoxSp) (v : PyVal) : specBox b v (boxContains b v) = true :=
+  model_meets_specBox_aux b v
 
 /-- the judge's two classes are sound for the declarative rule, and disjoint -/
 theorem judge_classes_sound (b : BoxSp) (v : PyVal) :
@@ -525,7 +528,6 @@ A valid two-element array null point is accepted (the truthiness test that raise
 example : outcome .nullPoint { space := .discrete 3 } (.int 3) = .rejFinal ∧
     outcome .nullPoint { space := .box ⟨true, [1], 1, 3⟩ } (.int 0) = .rejFinal ∧
     docAttr .nullPoint { space := .box ⟨true, [1], 1, 3⟩ } (.int 0) = .malformed ∧
-    knownExc .nullPoint { space := .box ⟨true, [1], 1, 3⟩ } (.int 0) = false ∧
     specAccept .nullPoint { space := .box ⟨true, [1], 1, 3⟩ } (.int 0) .accepted = false ∧
     outcome .nullPoint { space := .discrete 3 } (.list []) = .rejFinal ∧
     outcome .nullPoint { space := .discrete 3 } (.str "") = .rejFinal ∧
@@ -536,11 +538,11 @@ example : outcome .nullPoint { space := .discrete 3 } (.int 3) = .rejFinal ∧
     outcome .nullPoint { space := .discrete 3 } .none = .accepted ∧
     outcome .nullPoint { space := .discrete 3 } (.dict []) = .accepted := by decide
 
-/-- K2 is what is left: `null_action=[1.9]` on `Box(1, 3, (1,), int)` still passes finalize, because
-`Box.contains` truncates; this is exactly `knownExc` -/
-example : outcome .nullPoint { space := .box ⟨true, [1], 1, 3⟩ } (.list [.float (.fin q19)]) = .accepted ∧
+/-- the K2 variant seen through a null point is gone too: `null_action=[1.9]` on
+`Box(1, 3, (1,), int)` is rejected at finalize (it used to pass because `Box.contains` truncated) -/
+example : outcome .nullPoint { space := .box ⟨true, [1], 1, 3⟩ } (.list [.float (.fin q19)]) = .rejFinal ∧
     docAttr .nullPoint { space := .box ⟨true, [1], 1, 3⟩ } (.list [.float (.fin q19)]) = .malformed ∧
-    knownExc .nullPoint { space := .box ⟨true, [1], 1, 3⟩ } (.list [.float (.fin q19)]) = true := by decide
+    outcome .nullPoint { space := .box ⟨true, [1], 1, 3⟩ } (.list [.int 1]) = .accepted := by decide
 
 end Cfg
 end Abmarl
